@@ -1,15 +1,12 @@
 /- L0 facts about the generated OnBalanceVolume (any `[Scalar F]`).
    OBV has no parameters and no panicking operation, hence no `WF`. -/
+import TaRs.Lemmas.Core.OnBalanceVolume
 import TaRs.Gen.OnBalanceVolume
 import TaRs.Lemmas.RsLemmas
 namespace TaRs.Gen.OnBalanceVolume
 open TaRs TaRs.Rs
 variable {F : Type} [Scalar F]
 
-/-- the state `new()` builds -/
-def fresh : OnBalanceVolume F := { obv := Scalar.lit 0 0, prev_close := Scalar.lit 0 0 }
-
-theorem new_eq : (new : OnBalanceVolume F) = fresh := rfl
 /-- the running total after bar `b`: `+ volume` when `close > prev_close`, `− volume` when
     `close < prev_close`, unchanged otherwise (equal closes, or any NaN comparison) -/
 def out (s : OnBalanceVolume F) (b : Bar F) : F :=
